@@ -1,50 +1,23 @@
 package main
 
 import (
-	"fmt"
 	"os"
-	"strings"
 
 	"verifchk/internal/chk"
 )
 
 func main() {
-	repo := "/repo"
-	if r := os.Getenv("REPO"); r != "" {
-		repo = r
-	}
-	p, err := chk.Load(repo, "linux", "amd64")
+	p, err := chk.Load("/repo", "linux", "amd64")
 	if err != nil {
 		panic(err)
 	}
-	fn := p.Func(os.Args[1], os.Args[2])
-	if fn == nil {
-		for _, f := range p.ModFuncs() {
-			if p.FnKey(f) == os.Args[2] {
-				fn = f
-			}
-		}
-	}
-	if fn == nil {
-		fmt.Println("no such function")
+	if os.Args[1] == "loop" {
+		chk.DebugLoop(p, os.Args[2])
 		return
 	}
-	paths, ok := chk.EnumLits(fn.Blocks[0], 0, chk.TabOpts{Termer: &chk.Termer{P: p}, EventOf: chk.CallEvents(p)})
-	fmt.Println("complete:", ok, "paths:", len(paths))
-	for i, lp := range paths {
-		var ev []string
-		for _, e := range lp.Events {
-			ev = append(ev, e.Kind+":"+e.Name)
-		}
-		ex := "panic/stop"
-		if lp.Exit != nil {
-			var rs []string
-			t := &chk.Termer{P: p}
-			for _, r := range lp.Exit.Results {
-				rs = append(rs, t.Term(r, lp.PS))
-			}
-			ex = "return " + strings.Join(rs, ", ")
-		}
-		fmt.Printf("#%d lits: %s\n   unknown: %v\n   events: %s\n   exit: %s\n", i, strings.Join(lp.LitStrings(), " ∧ "), lp.Unknown, strings.Join(ev, " "), ex)
+	if os.Args[1] == "phi" {
+		chk.DebugPhi(p, os.Args[2])
+		return
 	}
+	chk.DebugSite(p, "", os.Args[1])
 }
